@@ -18,8 +18,8 @@ ID = 'C11'
 LEVEL = 'model_checking'
 MANIFEST = {
     'technique': 'exhaustive grid enumeration + explicit-state walk of the batch navigation graph on the real renderer',
-    'text': 'Every tuple of the 5-dimensional batch parameter grid (per tier) is executed on the real code (opt(), rendered dtml-in with literals and through variables) and judged against a reference window model; the navigation graph (windows = states, printed next/previous start numbers = transitions) is walked to its end for every (length,size,orphan,overlap<size).',
-    'note': 'Trusted: the 15-line reference window model in dtmc/props/c11.py; integer elements in a list; the exact window is pinned only for the start+size form as the statement says.',
+    'text': 'Every tuple of the 5-dimensional batch parameter grid (per tier) is executed on the real code (opt(), rendered dtml-in with literals and through variables) and judged against a reference window model; the navigation graph (windows = states, printed next/previous start numbers = transitions) is walked to its end for every (length,size,orphan,overlap<size); at every visited window the next/previous forms of the tag and the next-batches / previous-batches lists are compared with the windows and announcements actually met.',
+    'note': 'Trusted: the 15-line reference window model in dtmc/props/c11.py; integer elements in a list; the exact window is pinned only for the start+size form as the statement says; the announced next start / previous end are judged for every way of asking for a batch (size omitted or < 1, explicit end, overlap >= size).',
 }
 RULE = ('every tuple of the integer grid (length x start x end x size x '
         'orphan x overlap) stated per tier, each run through opt(), a '
@@ -159,6 +159,42 @@ def _form_template(form):
     return t
 
 
+def _batches_template():
+    """the lists of all following / preceding batches, as the first and last
+    displayed rows see them"""
+    from DocumentTemplate import HTML
+    t = _templates.get('batches')
+    if t is None:
+        item = ('<dtml-var batch-start-index>,<dtml-var batch-end-index>,'
+                '<dtml-var batch-size>;')
+        t = HTML('<dtml-in seq start=pstart size=psize orphan=porphan '
+                 'overlap=poverlap><dtml-if sequence-start>'
+                 '<dtml-in previous-batches mapping>' + item + '</dtml-in>'
+                 '</dtml-if><dtml-if sequence-end>|'
+                 '<dtml-in next-batches mapping>' + item + '</dtml-in>'
+                 '</dtml-if></dtml-in>')
+        _templates['batches'] = t
+    return t
+
+
+def render_batches(L, start, size, orphan, overlap):
+    """-> (previous batches, next batches) as lists of (first, last) element
+    numbers, nearest batch first"""
+    out = _batches_template()(seq=list(range(1, L + 1)), pstart=start,
+                              psize=size, porphan=orphan, poverlap=overlap)
+    res = []
+    for part in out.split('|'):
+        lst = []
+        for it in part.split(';'):
+            if it:
+                a, b, z = (int(x) for x in it.split(','))
+                if z != b + 1 - a:
+                    return None
+                lst.append((a + 1, b + 1))
+        res.append(lst)
+    return res if len(res) == 2 else None
+
+
 def render_form(form, L, start, size, orphan, overlap):
     out = _form_template(form)(seq=list(range(1, L + 1)), pstart=start,
                                psize=size, porphan=orphan, poverlap=overlap)
@@ -240,25 +276,28 @@ def judge_rows(res, sub, rows, L, start, end, size, orphan, overlap, how):
             res.violate('links', 'linkflag:%s:%s' % (how, sh),
                         {'row': r, 'window': [s, e], 'L': L}, sub)
             return None
-    startsize = start > 0 and end <= 0 and size >= 1
-    if startsize and overlap < size:
-        last, first = rows[-1], rows[0]
-        if last['ninfo'] is not None:
-            res.count('next_checked')
-            ns, ne, nz = last['ninfo']
-            if ns != e + 1 - overlap or not (ns <= ne <= L) or \
-                    nz != ne + 1 - ns:
-                res.violate('links', 'nextstart:%s' % how,
-                            {'ninfo': last['ninfo'], 'window': [s, e],
-                             'overlap': overlap, 'L': L}, sub)
-        if first['pinfo'] is not None:
-            res.count('prev_checked')
-            ps, pe, pz = first['pinfo']
-            if pe != min(s - 1 + overlap, L) or not (1 <= ps <= pe) or \
-                    pz != pe + 1 - ps:
-                res.violate('links', 'prevend:%s' % how,
-                            {'pinfo': first['pinfo'], 'window': [s, e],
-                             'overlap': overlap, 'L': L}, sub)
+    # (iv) the announced neighbours: whatever way the window was asked for
+    # (size given, omitted or < 1, explicit end, overlap >= size) the next
+    # batch starts at end+1-overlap and the previous one ends at
+    # start-1+overlap (clamped into the sequence)
+    last, first = rows[-1], rows[0]
+    if last['ninfo'] is not None:
+        res.count('next_checked')
+        ns, ne, nz = last['ninfo']
+        want = e + 1 - overlap
+        if (ns != want if want >= 1 else ns < 1) or \
+                not (ns <= ne <= L) or nz != ne + 1 - ns:
+            res.violate('links', 'nextstart:%s' % how,
+                        {'ninfo': last['ninfo'], 'window': [s, e],
+                         'overlap': overlap, 'L': L}, sub)
+    if first['pinfo'] is not None:
+        res.count('prev_checked')
+        ps, pe, pz = first['pinfo']
+        if pe != min(s - 1 + overlap, L) or not (1 <= ps <= pe) or \
+                pz != pe + 1 - ps:
+            res.violate('links', 'prevend:%s' % how,
+                        {'pinfo': first['pinfo'], 'window': [s, e],
+                         'overlap': overlap, 'L': L}, sub)
     return (s, e)
 
 
@@ -456,6 +495,31 @@ def run_nav(case):
         if covered != list(range(1, L + 1)):
             res.violate('nav', 'nav:coverage',
                         {'covered': covered, 'L': L}, case)
+        # the batch lists: next-batches is the list of windows that following
+        # the next links goes through; previous-batches is the chain of
+        # announced previous batches
+        order = sorted(states)
+        for i, (s, e) in enumerate(order):
+            res.evals += 1
+            got = render_batches(L, s, size, orphan, overlap)
+            if got is None or got[1] != order[i + 1:]:
+                res.violate('nav', 'nav:next-batches',
+                            {'window': [s, e], 'next_batches': got and got[1],
+                             'windows_reached': order[i + 1:]}, case)
+                return res
+            chain, cs, r = [], s, states[(s, e)]
+            while cs > 1 and r and r[0]['pinfo'] and len(chain) <= L:
+                ps, pe, pz = r[0]['pinfo']
+                chain.append((ps, pe))
+                r = states.get((ps, None)) or window(ps)
+                cs = ps
+            chain.reverse()     # listed from the beginning of the sequence
+            if got[0] != chain:
+                res.violate('nav', 'nav:previous-batches',
+                            {'window': [s, e], 'previous_batches': got[0],
+                             'announced_chain': chain}, case)
+                return res
+            res.count('batch_lists_checked')
         # previous links from every visited window reach element 1
         for (s, e), rows in list(states.items()):
             cs, hops = s, 0
@@ -509,7 +573,7 @@ def run(case):
 def finalize(tier, agg):
     c = agg['counters']
     for k in ('clause_ii_checked', 'next_checked', 'prev_checked',
-              'proper_windows'):
+              'proper_windows', 'batch_lists_checked'):
         if not c.get(k):
             raise HarnessFault('vacuous: counter %s is zero' % k)
     if agg['states'] < 10 or agg['transitions'] < 10:
